@@ -172,9 +172,8 @@ def frame(rows, index_kind, extra=False):
     return df
 
 
-def call_accessor(rows, index_kind):
-    """-> (w per row, values per row, problems with index/name)"""
-    df = frame(rows, index_kind, extra=True)
+def accessor_values(df):
+    """All accessor methods on the frame `df` -> (w per row, values per row, problems with index/name)"""
     acc = df.equistress
     problems = []
     pr = acc.principals()
@@ -193,8 +192,21 @@ def call_accessor(rows, index_kind):
         if s.name != f:
             problems.append(f"{f}(): name {s.name!r}")
         vals.append(s.to_numpy(dtype=float))
-    return [[float(x) for x in w[i]] for i in range(len(rows))], \
-        [[float(v[i]) for v in vals] for i in range(len(rows))], problems
+    return [[float(x) for x in w[i]] for i in range(len(df))], \
+        [[float(v[i]) for v in vals] for i in range(len(df))], problems
+
+
+def call_accessor(rows, index_kind):
+    return accessor_values(frame(rows, index_kind, extra=True))
+
+
+def call_lists(rows):
+    """plain functions with python lists (one entry per row) as arguments"""
+    E = eqs()
+    cols = [[r[i] for r in rows] for i in range(6)]
+    w = np.asarray(E.principals(*cols), dtype=float).reshape(len(rows), 3)
+    vals = [np.asarray(getattr(E, f)(*cols), dtype=float).reshape(len(rows)) for f in FUNCS]
+    return [[float(x) for x in w[i]] for i in range(len(rows))], [[float(v[i]) for v in vals] for i in range(len(rows))]
 
 
 def same(a, b):
@@ -253,8 +265,9 @@ class C17(Prop):
     RULE = ("case = (1-6 stress tensors of 13 kinds incl. uniaxial, pure shear, hydrostatic, near-hydrostatic, repeated "
             "eigenvalues, zero, zero trace, |w_min| = |w_max|; one orthogonal Q (exact or random, proper or reflection); "
             "one positive scale factor; index layout); every base / rotated / scaled tensor is evaluated on the scalar, "
-            "column and accessor path and all 9 function values are compared bit for bit with the Lean model fed with "
-            "the eigenvalues `principals` returned; non-trivial = at least one non-zero tensor; distinct by case")
+            "column and accessor path and in further batch layouts (alone as a column of length 1, columns of length 2 and 3, "
+            "next to 1-4 all-zero rows, as a one-row frame df.iloc[[i]]) and all 9 function values are compared bit for bit "
+            "with the Lean model fed with the eigenvalues `principals` returned; non-trivial = at least one non-zero tensor; distinct by case")
     ASSUMPTIONS = [
         "numpy.linalg.eigvalsh is modelled by its contract (IsEigTriple: ascending roots of the characteristic polynomial, "
         "proved to exist, to be unique, rotation invariant and to scale with the tensor); the eigenvalue based model "
@@ -276,12 +289,12 @@ class C17(Prop):
 
     # -------------------------------------------------------------- generation
     def generate(self, rng, tier):
-        n_cases = 2000 if tier == "quick" else 20000
+        n_cases = 1300 if tier == "quick" else 12000
         # every kind x every exact rotation once (single row), then random batches
         for kind in KINDS:
             for q in EXACT_Q:
                 row, lam = gen_row(rng, kind)
-                yield self._case(rng, [row], [lam], [kind], [float(x) for x in q], "exact")
+                yield self._case(rng, [row], [lam], [kind], [float(x) for x in q], "exact", frames=True)
         # enumerated scope: every tensor with components in {-1, 0, 1} (729 tensors; many exact ties of the
         # sign indicators and repeated eigenvalues), in batches of 9 rows, with the exact rotations
         small = [[float(x) for x in t] for t in itertools.product([-1, 0, 1], repeat=6)]
@@ -289,7 +302,8 @@ class C17(Prop):
         for b in range(0, len(small), 9):
             rows = small[b:b + 9]
             for q in (qs if qs is not None else [EXACT_Q[(b // 9) % len(EXACT_Q)]]):
-                yield self._case(rng, rows, [None] * len(rows), ["enumerated"] * len(rows), [float(x) for x in q], "exact")
+                yield self._case(rng, rows, [None] * len(rows), ["enumerated"] * len(rows), [float(x) for x in q], "exact",
+                                 frames=False)
         self.stats["enumerated_scope"] = ("all 729 tensors with components in {-1,0,1} x " +
                                           ("one" if qs is None else "all 6") + " exact orthogonal matrices")
         for _ in range(n_cases):
@@ -306,11 +320,12 @@ class C17(Prop):
                 q, qk = rand_orth(rng), "random"
             yield self._case(rng, rows, lams, kinds, q, qk)
 
-    def _case(self, rng, rows, lams, kinds, q, qk):
+    def _case(self, rng, rows, lams, kinds, q, qk, frames=None):
         factor = rng.choice([2.0, 0.5, 3.7, 1e-3, 1e4, rng.uniform(0.1, 10.0)])
         idx = rng.choice(["range", "reversed", "offset", "string", "multi"])
         return {"rows": rows, "lam": lams, "kinds": kinds, "q": q, "q_kind": qk, "factor": factor, "index": idx,
-                "drop": rng.choice(COLS)}
+                "drop": rng.choice(COLS), "pad": rng.choice([1, 2, 3, 4]),
+                "frames": frames if frames is not None else rng.random() < 0.25}
 
     # -------------------------------------------------------------- derived tensors
     @staticmethod
@@ -337,6 +352,7 @@ class C17(Prop):
             aw, av, problems = call_accessor(allrows, case["index"])
             out["accessor"] = list(zip(aw, av))
             out["problems"] = problems
+            out["layouts"] = self._layouts(case, allrows, len(base), out)
             out["error"] = None
         except Exception as e:  # the real code raised on valid input
             out["error"] = f"{type(e).__name__}: {e}"
@@ -345,31 +361,74 @@ class C17(Prop):
         self._cache[key] = (case, out)
         return out
 
+    def _layouts(self, case, allrows, n, out):
+        """The same tensors in other batch layouts: every result must be the number the tensor gets on its own.
+        -> [(label, tensor index or None for a zero padding row, row, w, vals)]"""
+        lay = []
+        # every tensor alone as a column of length 1 (one-element lists, the style of the repository's tests)
+        for i, r in enumerate(allrows):
+            w, v = call_lists([r])
+            lay.append(("column of length 1 (one-element lists)", i, r, w[0], v[0]))
+        # columns of length 2 and 3 (prefixes of the full column)
+        for m in (2, 3):
+            w, v = call_column(allrows[:m])
+            for i in range(m):
+                lay.append((f"column of length {m} (first {m} tensors of the case)", i, allrows[i], w[i], v[i]))
+        # a loaded row followed by / preceded by zero rows
+        pad = int(case.get("pad", 2))
+        zero = [0.0] * 6
+        for i in range(n):
+            for label, rows, pos in ((f"column: the tensor followed by {pad} all-zero rows", [allrows[i]] + [zero] * pad, 0),
+                                     (f"column: {pad} all-zero rows followed by the tensor", [zero] * pad + [allrows[i]], pad)):
+                w, v = call_column(rows)
+                for j in range(len(rows)):
+                    lay.append((label, i if j == pos else None, rows[j], w[j], v[j]))
+        # every base row of the frame evaluated alone as a one-row frame (df.iloc[[i]]) through the accessor
+        # (pandas is slow: in a quarter of the random cases, for at most two rows)
+        if not case.get("frames", True):
+            return lay
+        df = frame(allrows, case["index"], extra=True)
+        for i in sorted({0, pad % n}):
+            one = df.iloc[[i]]
+            w, v, problems = accessor_values(one)
+            out["problems"] = out["problems"] + [f"one-row frame df.iloc[[{i}]]: {p}" for p in problems]
+            lay.append((f"accessor on the one-row frame df.iloc[[{i}]]", i, allrows[i], w[0], v[0]))
+        # the padded layout through the accessor as well (first base row only)
+        w, v, problems = accessor_values(frame([allrows[0]] + [zero] * pad, case["index"], extra=True))
+        out["problems"] = out["problems"] + [f"padded frame: {p}" for p in problems]
+        for j in range(pad + 1):
+            lay.append((f"accessor: frame with the tensor in row 0 followed by {pad} all-zero rows", 0 if j == 0 else None,
+                        allrows[0] if j == 0 else zero, w[j], v[j]))
+        return lay
+
+    def _entries(self, ev):
+        """(label, row, w, vals) of every evaluation of the case, in the order of the protocol lines"""
+        ent = []
+        for path in ("scalar", "column", "accessor"):
+            for i, (row, (w, vals)) in enumerate(zip(ev["rows"], ev[path])):
+                ent.append((f"{path} path, tensor #{i}", row, w, vals))
+        for label, i, row, w, vals in ev["layouts"]:
+            ent.append((f"{label}, " + (f"tensor #{i}" if i is not None else "zero row"), row, w, vals))
+        return ent
+
     # -------------------------------------------------------------- correspondence
     def model_lines(self, case):
         ev = self._evaluate(case)
         if ev["error"]:
             return ["equi " + " ".join(core.f2h(x) for x in ev["rows"][0] + [0.0, 0.0, 0.0])]
-        lines = []
-        for path in ("scalar", "column", "accessor"):
-            for row, (w, _vals) in zip(ev["rows"], ev[path]):
-                lines.append("equi " + " ".join(core.f2h(x) for x in row + w))
-        return lines
+        return ["equi " + " ".join(core.f2h(x) for x in row + w) for _l, row, w, _v in self._entries(ev)]
 
     def impl_lines(self, case):
         ev = self._evaluate(case)
         if ev["error"]:
             return ["error " + ev["error"]]
-        lines = []
-        for path in ("scalar", "column", "accessor"):
-            for _row, (_w, vals) in zip(ev["rows"], ev[path]):
-                lines.append(" ".join(core.f2h(x) for x in vals))
-        return lines
+        return [" ".join(core.f2h(x) for x in vals) for _l, _row, _w, vals in self._entries(ev)]
 
     def compare(self, case, model_out, impl_out):
         if len(model_out) != len(impl_out):
             return f"length {len(model_out)} vs {len(impl_out)}"
-        n3 = len(model_out) // 3
+        ev = self._evaluate(case)
+        labels = [e[0] for e in self._entries(ev)] if not ev["error"] else []
         for i, (a, b) in enumerate(zip(model_out, impl_out)):
             if b.startswith("error"):
                 return f"implementation raised on valid input: {b}"
@@ -380,12 +439,12 @@ class C17(Prop):
                 return f"line {i}: model={a[:200]!r} impl={b[:200]!r}"
             for k, f in enumerate(FUNCS):
                 if not same(m[k], p[k]):
-                    path = ("scalar", "column", "accessor")[i // n3] if n3 else "?"
+                    path = labels[i] if i < len(labels) else "?"
                     note = ""
                     if f.endswith("mises") or "mises" in f:
                         if same(abs(m[9]), abs(p[0])) and FUNCS[k] == "mises":
                             note = " (the implementation equals the model's UNREPAIRED expanded formula)"
-                    return (f"{f} [{path} path, tensor #{i % n3 if n3 else 0}]: model={m[k]!r} impl={p[k]!r}{note}")
+                    return (f"{f} [{path}]: model={m[k]!r} impl={p[k]!r}{note}")
         return None
 
     def nontrivial(self, case, model_out):
@@ -427,6 +486,24 @@ class C17(Prop):
                             "accessor-differs")
             if not all(same(a, b) and same(a, d) for a, b, d in zip(ws, wc, wa)):
                 return (f"principals: scalar {ws}, column {wc}, accessor {wa} on tensor {rows[i]}", "accessor-differs")
+
+        # (a'') row by row: the number a tensor gets must not depend on the batch it is evaluated in - alone as a
+        # column of length 1, in columns of length 2 and 3, next to all-zero rows, as a one-row frame df.iloc[[i]]
+        st["layout_evaluations"] = st.get("layout_evaluations", 0) + len(ev["layouts"])
+        for label, i, row, w, v in ev["layouts"]:
+            if i is None:
+                if any(x != 0 for x in w) or any(x != 0 for x in v):
+                    return (f"{label}: an all-zero row gets principals {w}, values {dict(zip(FUNCS, v))}", "batch-dependent")
+                continue
+            ws, vs = ev["scalar"][i]
+            if not all(same(a, b) for a, b in zip(w, ws)):
+                return (f"principals of the tensor {tuple(row)} depend on the batch: {label}: {w}; scalar call: {ws}; "
+                        f"inside the full column of {len(rows)} rows: {ev['column'][i][0]}", "batch-dependent")
+            for k, f in enumerate(FUNCS):
+                if not same(v[k], vs[k]):
+                    return (f"{f} of the tensor {tuple(row)} depends on the batch: {label}: {v[k]!r}; scalar call: {vs[k]!r}; "
+                            f"inside the full column of {len(rows)} rows: {ev['column'][i][1][k]!r}; "
+                            f"inside the full frame: {ev['accessor'][i][1][k]!r}", "batch-dependent")
 
         # (a') integer arguments (the style of the repository's own tests) give the same numbers as float arguments
         E = eqs()
